@@ -8,7 +8,7 @@ VARIABLES l, bad
 Init == l = 1 /\ bad = <<>>
 Next == /\ l <= Len(Recs) /\ l' = l + 1
         /\ LET r == Recs[l] IN
-           bad' = IF r.out \in Reach(Shape(r.in)) THEN bad ELSE Append(bad, [line |-> l, exp |-> [anyof |-> <<Shape(r.in)>>]])
+           bad' = IF r.panic = "" /\ r.out \in Reach(Shape(r.in)) THEN bad ELSE Append(bad, [line |-> l, exp |-> [anyof |-> <<Shape(r.in)>>]])
 Spec == Init /\ [][Next]_<<l, bad>>
 Done == (l = Len(Recs) + 1) =>
           Serialize(ToJson([consumed |-> l - 1, lines |-> Len(Recs), bad |-> bad]) \o "\n", RESULT,
